@@ -41,7 +41,7 @@ def cfg_of(work, cfgname):
     xo = re.search(r"XidOf\s*<-\s*(\w+)", txt).group(1)
     xid = {"XidAll7": [7] * ncall, "Xid78": [7, 8][:ncall], "Xid778": [7, 7, 8][:ncall]}[xo]
     return dict(T=int(g("T")), tries=int(g("Tries")), bufcap=int(g("BufCap")), xid=xid,
-                urgent=g("Urgent") == "TRUE", timed=True)
+                urgent=g("Urgent") == "TRUE", timed=True, wfault=g("WFault", "FALSE") == "TRUE")
 
 
 def leads(work, which):
@@ -53,7 +53,7 @@ def leads(work, which):
         if inv not in r["violated"]:
             raise Infra("%s: expected the wrong design to violate %s (non-vacuity), got %s\n%s" % (cfgname, inv, r["violated"], r["out"][-1500:]))
         steps = parse_counterexample(r["out"])
-        if len(steps) < 5:
+        if len(steps) < 3:
             raise Infra("%s: could not parse the counterexample" % cfgname)
         out.append(dict(cfg=cfg_of(work, cfgname), steps=steps, tag=cfgname))
         mcs.append(r)
@@ -167,9 +167,9 @@ def client_check(work, tier, seed, replay, propid):
     mcs = []
     # 1. the intended design satisfies the properties (exhaustive, small scope)
     if propid == "C10":
-        plan = [("MC_ClientSafety" + ("" if not quick else "_quick"), 1500)]
+        plan = [("MC_ClientSafety" + ("" if not quick else "_quick"), 1500), ("MC_ClientHist", 1500)]      # ... and with call histories, write faults
     else:
-        plan = [("MC_ClientTimed" + ("" if not quick else "_quick"), 2400)]
+        plan = [("MC_ClientTimed" + ("" if not quick else "_quick"), 2400), ("MC_ClientHistTimed" + ("" if not quick else "_quick"), 2400)]
         if propid == "C11":
             plan.append(("MC_ClientLive", 900))     # liveness under weak fairness: every call returns, Close returns
     for cfgname, to in plan:
@@ -178,7 +178,8 @@ def client_check(work, tier, seed, replay, propid):
     if propid == "C10":
         lead, lmcs = leads(work, [("MC_ClientLeadNil", "NoNilDelivery"), ("MC_ClientLeadChan", "ChanClosedOnlyAfterOwnDone")])
     else:
-        lead, lmcs = leads(work, [("MC_ClientLeadTimer", "Schedule"), ("MC_ClientLeadDeadline", "Deadline")])
+        lead, lmcs = leads(work, [("MC_ClientLeadTimer", "Schedule"), ("MC_ClientLeadDeadline", "Deadline"),
+                                  ("MC_ClientLeadCarry", "Schedule"), ("MC_ClientLeadLeak", "IdReusable")])
     # 3. random behaviours of the specification
     sims, simr = simulate(work, 150 if quick else 1500, 70, seed)
     # 4. replay into the real clients + random scheduler runs, 5. validate every recorded execution
